@@ -155,20 +155,19 @@ def run_scenario(sc, repo=None, built=None):
             shutil.rmtree(d, ignore_errors=True)
 
 
-def from_failure(hname, failed, logdir):
-    """called by replay.make_replay; needs the scratch of the run -> re-created here"""
+def has_decoder(hname):
+    base = hname.split("@")[0]
+    return any(base.startswith(pref) for pref, _op, _l in OPS)
+
+
+def from_failure(hname, failed, logdir, sc):
+    """called by replay.make_replay with a populated scratch copy"""
     reg = vlib.load_registry()
     base = hname.split("@")[0]
     if base not in reg or failed[0].get("kind") == "verus":
         return None
     h = dict(reg[base])
-    sc = vlib.Scratch("pb")
-    try:
-        sc.populate()
-        sc.inject()
-        vals = playback_values(sc, h, logdir)
-    finally:
-        sc.cleanup()
+    vals = playback_values(sc, h, logdir)
     if not vals:
         return None
     scen = decode(base, vals)
